@@ -89,6 +89,7 @@ type Exec struct {
 	atReturnHits map[*Clause]int
 	modeTags   []string
 	noEnv      int
+	cbDepth    int
 	splitVar   string
 	splitBits  int
 }
